@@ -228,3 +228,98 @@ package fs
 //@   ensures[C09,C07] 0 <= t && t < n ==> raw(p, base(p) + t) == img(viso, off + t) @content
 //@   ensures n > 0 ==> off + n <= viso.totalSize
 //@   ensures wfISO(viso) && iofaults >= old(iofaults)
+
+// ---- decrypting view (C10, C04) ------------------------------------------------------------------
+
+//@ pred wfEnc(e *EncryptedISO) := e != nil && e.privateFile != nil && e.cip != nil && e.cbcDec != nil && len(e.iv) == 16 && e.regionsHeaderSize >= 0 && e.regionsHeaderSize <= 2048
+//@   && (forall y {at(e.encryptedRegions, y).start} {at(e.encryptedRegions, y).end} :: base(e.encryptedRegions) <= y && y < end(e.encryptedRegions) ==> 0 <= at(e.encryptedRegions, y).start && at(e.encryptedRegions, y).start <= at(e.encryptedRegions, y).end)
+//@   && (forall q {raw(e.iv, q)} :: base(e.iv) <= q && q < base(e.iv) + 12 ==> raw(e.iv, q) == 0)
+
+//@ func cbcMode.SetIV params(iv)
+//@   requires recv != nil && len(iv) == 16
+//@ func cbcMode.CryptBlocks params(dst, src)
+//@   requires recv != nil
+//@   requires len(src) % 16 == 0 @whole-blocks
+//@   requires len(dst) >= len(src) @dst-large-enough
+//@   modifies elems(dst)
+//@   ensures forall x {raw(dst, x)} :: x < base(dst) || x >= base(dst) + len(src) ==> raw(dst, x) == old(raw(dst, x))
+
+//@ func EncryptedISO.setIVForSector results(m)
+//@   tags C04,C10
+//@   requires wfEnc(e) && sector >= 0
+//@   modifies elems(e.iv)
+//@   ensures m != nil && wfEnc(e)
+//@   ensures[C10] !clone ==> e.iv[12] * 16777216 + e.iv[13] * 65536 + e.iv[14] * 256 + e.iv[15] == sector @iv-holds-sector
+
+//@ func EncryptedISO.clearRegionsData
+//@   tags C04,C10
+//@   requires e != nil && start >= 0 && e.regionsHeaderSize >= 0 && e.regionsHeaderSize <= 2048
+//@   modifies elems(data)
+//@   ensures[C10] forall x {raw(data, x)} :: raw(data, x) == ((e.clearRegions && base(data) <= x && x < base(data) + len(data) && start + x - base(data) < e.regionsHeaderSize) ? 0 : old(raw(data, x))) @cleared
+//@   loop 1 invariant 0 <= i && i <= len(data) && i <= e.regionsHeaderSize - start @idx
+//@   loop 1 invariant forall x {raw(data, x)} :: raw(data, x) == ((base(data) <= x && x < base(data) + i) ? 0 : old(raw(data, x))) @zeroed
+//@   loop 1 decreases len(data) - i
+
+//@ func EncryptedISO.decryptData
+//@   tags C04,C10
+//@   requires wfEnc(e) && start >= 0 && start + len(data) < 1<<41 && data.$arr != e.iv.$arr && e.iv.$arr != e.encryptedRegions.$arr
+//@   modifies elems(data), elems(e.iv)
+//@   ensures wfEnc(e)
+//@   ensures forall x {raw(data, x)} :: x < base(data) || x >= base(data) + len(data) ==> raw(data, x) == old(raw(data, x)) @frame
+//@   loop 1 invariant wfEnc(e) @wf
+//@   loop 1 invariant forall x {raw(data, x)} :: x < base(data) || x >= base(data) + len(data) ==> raw(data, x) == old(raw(data, x)) @frame
+//@   loop 2 invariant wfEnc(e) && startSector <= i @wf
+//@   loop 2 invariant forall x {raw(data, x)} :: x < base(data) || x >= base(data) + len(data) ==> raw(data, x) == old(raw(data, x)) @frame
+//@   loop 2 decreases endSector - i
+
+//@ func deriveISOKey results(err)
+//@   tags C04,C10
+//@   requires len(data1Key) == 16 && len(targetKey) == 16
+//@   modifies elems(targetKey)
+//@   ensures forall x {raw(targetKey, x)} :: x < base(targetKey) || x >= base(targetKey) + 16 ==> raw(targetKey, x) == old(raw(targetKey, x))
+
+//@ func ReadKeyFile results(key, err)
+//@   tags C04,C10,C11
+//@   requires f != nil
+//@   modifies fpos, iofaults
+//@   ensures len(key) == 16 && iofaults >= old(iofaults)
+
+//@ func NewEncryptedISO results(e, err)
+//@   tags C04,C10,C13
+//@   requires f != nil && len(data1) == 16
+//@   modifies fpos[f], iofaults
+//@   ensures iofaults >= old(iofaults)
+//@   ensures err == nil ==> e != nil && fresh(e) && wfEnc(e) && e.privateFile == f && e.clearRegions == clearRegions && e.offset == 0 && fpos[f] == 0
+//@   ensures err != nil ==> e == nil
+//@   ensures[C13] fopen == old(fopen)
+//@   loop 1 invariant i <= len(unencryptedRegions) && len(encryptedRegions) >= hdr.Count - 1 && len(encryptedRegions) <= hdr.Count - 1 + i && prevRegionEnd <= 0x7fffffff @shape
+//@   loop 1 invariant i > 0 ==> prevRegionEnd == at(unencryptedRegions, base(unencryptedRegions) + i - 1).End @prev
+//@   loop 1 invariant forall y {at(encryptedRegions, y).start} {at(encryptedRegions, y).end} :: base(encryptedRegions) <= y && y < end(encryptedRegions) ==> 0 <= at(encryptedRegions, y).start && at(encryptedRegions, y).start <= at(encryptedRegions, y).end @regions-wf
+//@   loop 1 invariant iofaults >= old(iofaults) && fopen == old(fopen)
+
+//@ pred encSynced(e *EncryptedISO) := wfEnc(e) && e.offset == fpos[e.privateFile] && e.offset >= 0 && e.iv.$arr != e.encryptedRegions.$arr
+
+//@ func EncryptedISO.ReadAt results(n, err)
+//@   tags C04,C10
+//@   requires wfEnc(e) && b.$arr != e.iv.$arr && e.iv.$arr != e.encryptedRegions.$arr
+//@   modifies elems(b), elems(e.iv), iofaults
+//@   ensures iofaults >= old(iofaults) && wfEnc(e)
+//@   ensures 0 <= n && n <= len(b)
+//@   ensures n > 0 ==> off >= 0 && off + n <= fsize[e.privateFile]
+//@   ensures n < len(b) ==> err != nil
+
+//@ func EncryptedISO.Read results(n, err)
+//@   tags C04,C10
+//@   requires encSynced(e) && b.$arr != e.iv.$arr
+//@   modifies elems(b), elems(e.iv), iofaults, fpos[e.privateFile], e.offset
+//@   ensures iofaults >= old(iofaults) && encSynced(e)
+//@   ensures 0 <= n && n <= len(b) && fpos[e.privateFile] == old(fpos[e.privateFile]) + n
+//@   ensures n == 0 && len(b) > 0 ==> err != nil
+
+//@ func EncryptedISO.Seek results(pos, err)
+//@   tags C04,C10
+//@   requires encSynced(e)
+//@   modifies fpos[e.privateFile], e.offset, iofaults
+//@   ensures iofaults >= old(iofaults) && encSynced(e)
+//@   ensures err == nil ==> pos == fpos[e.privateFile] && pos >= 0
+//@   ensures err != nil ==> fpos[e.privateFile] == old(fpos[e.privateFile])
